@@ -7,6 +7,7 @@ from typing import Any, ClassVar, cast
 
 from tree_sitter import Node
 
+from nix_manipulator.expressions.points import point_row
 from nix_manipulator.expressions.comment import Comment
 from nix_manipulator.expressions.expression import (
     NixExpression,
@@ -184,7 +185,7 @@ class Binding(TypedExpression):
                 if (
                     value_node is not None
                     and prev_content == value_node
-                    and child.start_point.row == value_node.end_point.row
+                    and point_row(child.start_point) == point_row(value_node.end_point)
                     and isinstance(value, NixExpression)
                 ):
                     comment.inline = True
